@@ -13,10 +13,12 @@ package otlptracegrpc
 //@   trusted "accessor of google.golang.org/grpc/status (external library)"
 
 // first RetryInfo detail of the status, if any (protobuf Any decoding is external)
+// "carries retry info" means: a RetryInfo detail is PRESENT (whatever delay it asks for, zero included); without one: (false, 0)
 //@ func throttleDelay(s *status.Status) (ok bool, d time.Duration)
-//@   prop -
 //@   pure
-//@   trusted "walks protobuf status details (external library types); treated as a deterministic function of the status"
+//@   unchecked frame,no-panic walks protobuf status details (external library types); used by callers as a deterministic function of the status
+//@   assert@return#1 : $ret0
+//@   assert@return#2 : !$ret0 && $ret1 == 0
 
 // Exactly the documented retryable codes are retried; ResourceExhausted only when the server sent RetryInfo.
 //@ func retryableGRPCStatus(s *status.Status) (ok bool, d time.Duration)
